@@ -258,6 +258,55 @@ func c03TwoStores(cfg *world.Config, hist []world.Op, acc *pairAcc, st *c03Stats
 	}
 }
 
+// c03TwoBuiltinStores: the same question with the library's own in-memory stores (two instances,
+// one shared NodeCache): every node of a root must be loadable from the store it was persisted to.
+func c03TwoBuiltinStores(cfg *world.Config, hist []world.Op, acc *pairAcc, st *c03Stats) {
+	w, err := explore.Replay(cfg, hist, true)
+	if err != nil || w.Cache == nil {
+		return
+	}
+	c := w.ReadContents(w.Trees[0])
+	cache := mast.NewNodeCache(1000)
+	type side struct {
+		st   mast.Persist
+		root *mast.Root
+	}
+	var sides []side
+	for i := 0; i < 2; i++ {
+		stx := mast.NewInMemoryStore()
+		rc := w.RemoteConfig(w.Store, false)
+		rc.StoreImmutablePartsWith = stx
+		rc.NodeCache = cache
+		t, err := mast.NewRoot(cfg.CreateOptions()).LoadMast(ctx, rc)
+		if err != nil {
+			return
+		}
+		for _, k := range sortedKeys(c.M) {
+			if c.M[k] >= 0 {
+				t.Insert(ctx, cfg.Key(k), cfg.Vals[c.M[k]])
+			}
+		}
+		var root *mast.Root
+		r := guardRes(func() (err error) { root, err = t.MakeRoot(ctx); return })
+		if r.Err != nil || r.Panic != nil {
+			return
+		}
+		sides = append(sides, side{stx, root})
+	}
+	atomic.AddInt64(&st.evals, 1)
+	for i, sd := range sides {
+		get := func(n string) ([]byte, bool) {
+			b, err := sd.st.Load(ctx, n)
+			return b, err == nil
+		}
+		if _, err := codecFor(cfg).Walk(cfg.KS, get, linkOf(sd.root), nil); err != nil {
+			acc.add(cfg, "C03", []explore.Finding{{Sig: "C03|two-builtin-stores|node-skipped-because-cached-for-another-store", What: "with two in-memory stores sharing one NodeCache, a node was not written to the store its tree persists to", Detail: fmt.Sprintf("store #%d: %v", i+1, err)}},
+				append(cfg.DescribeHist(hist), "the same contents built over two mast.NewInMemoryStore() instances sharing one NodeCache; MakeRoot on both"))
+			return
+		}
+	}
+}
+
 func C03SeqConfigs(thorough bool) []*world.Config {
 	B, M := ref.FormatBinary, ref.FormatMarshaler
 	cs := []*world.Config{
@@ -299,6 +348,7 @@ func c03Sequential(run *report.Run, acc *pairAcc, st *c03Stats) {
 		parallelFor(len(hists), func(i int) {
 			c03State(cfg, hists[i], acc, st, ms)
 			c03TwoStores(cfg, hists[i], acc, st)
+			c03TwoBuiltinStores(cfg, hists[i], acc, st)
 		})
 		run.Parts = append(run.Parts, map[string]interface{}{"part": "A: fault sequences, in-order completion", "config": cfg.Name, "pre_states": len(hists)})
 	}
